@@ -4,7 +4,7 @@ import sys,re,collections
 rows=collections.OrderedDict()
 for l in open(sys.argv[1]):
     m=re.match(r'^(\S+) (C\d\d) exit=(\d+)\s*(\S*)',l)
-    if not m or not re.match(r'^(c\d\d[ab]-\d|m\d\d|b\d\d)',m.group(1)): continue
+    if not m or not re.match(r'^(c\d\d[a-z]-\d|m\d\d|b\d\d)',m.group(1)): continue
     name,prop,code,cls=m.groups()
     cell={'0':'–','2':'inc.'}.get(code, cls or 'violation')
     if code=='1' and cls.startswith('done'): cell='violation'
